@@ -237,6 +237,20 @@ func (x *Exec) assumptions(st *State) []*Term {
 	}
 	if st.focused {
 		// focused proof state: only the selected facts, later assumptions and definitional axioms
+		// (and, when asked for with the pseudo-label "requires", the instances of the quantified
+		// preconditions / invariants)
+		if st.focusSchemas && len(x.schemas)+len(st.schemas) > 0 {
+			work := st.fork()
+			for _, t := range x.instantiate(work) {
+				add(t)
+			}
+			for _, t := range work.ax {
+				add(t)
+			}
+			for _, t := range congruenceAxioms(work.apps) {
+				add(t)
+			}
+		}
 		for _, t := range st.focus {
 			add(t)
 		}
@@ -244,6 +258,14 @@ func (x *Exec) assumptions(st *State) []*Term {
 			add(t)
 		}
 		for _, t := range st.ax {
+			add(t)
+		}
+		// consistency of the uninterpreted applications and their theory facts stay available
+		// (the relevance filter keeps only those whose values are mentioned)
+		for _, t := range congruenceAxioms(st.apps) {
+			add(t)
+		}
+		for _, t := range theoryAxioms(st.apps) {
 			add(t)
 		}
 		return out
@@ -1020,7 +1042,9 @@ func (x *Exec) verifyContract(ct *Contract) (err error) {
 			x.schemas = append(x.schemas, &schema{vars: cl.vars, expr: cl.expr, env: env, text: cl.text})
 			continue
 		}
-		st.assume(x.assumeClause(st, env, cl, func(n string, v Value) { env.vars[n] = v }))
+		rt := x.assumeClause(st, env, cl, func(n string, v Value) { env.vars[n] = v })
+		st.reqFacts = append(st.reqFacts, rt)
+		st.assume(rt)
 	}
 	x.specMode--
 	// vacuity probe: preconditions must be satisfiable
@@ -1197,7 +1221,25 @@ func (x *Exec) verifyContract(ct *Contract) (err error) {
 		case "focus":
 			for _, f := range finals {
 				var keep []*Term
+				f.st.focusSchemas = false
 				for _, lbl := range strings.Fields(sst.text) {
+					if lbl == "path-int" {
+						// the integer / boolean part of the path condition (which branch, which index),
+						// without the conjuncts that compare real-valued terms
+						for _, pt := range f.st.pc {
+							if !mentionsRealVar(pt, map[int]bool{}) {
+								keep = append(keep, pt)
+							}
+						}
+						continue
+					}
+					if lbl == "requires" {
+						f.st.focusSchemas = true
+						for _, rt := range f.st.reqFacts {
+							keep = append(keep, rt)
+						}
+						continue
+					}
 					t, ok := f.st.labelled[lbl]
 					if !ok {
 						fail("focus: no asserted fact labelled %q", lbl)
@@ -1531,7 +1573,11 @@ func splitGoal(g *Term, depth int) []*Term {
 func (x *Exec) generalize(st *State, env *Env, name string) {
 	val, ok := env.lookup(name)
 	if !ok {
-		fail("generalize: unknown variable %s", name)
+		// a Go local that does not exist on this path (early return): nothing to generalise here
+		return
+	}
+	if _, bad := val.(*Poison); bad {
+		return
 	}
 	var leaves []*Term
 	if !flatten(val, &leaves) {
@@ -1681,6 +1727,23 @@ func ufSupported(t types.Type) bool {
 		return true
 	case *types.Array:
 		return ufSupported(u.Elem())
+	}
+	return false
+}
+
+// mentionsRealVar: does the term contain a real-sorted variable?
+func mentionsRealVar(t *Term, seen map[int]bool) bool {
+	if seen[t.id] {
+		return false
+	}
+	seen[t.id] = true
+	if t.op == "v" && t.sort == SReal {
+		return true
+	}
+	for _, a := range t.args {
+		if mentionsRealVar(a, seen) {
+			return true
+		}
 	}
 	return false
 }
